@@ -22,9 +22,12 @@ import common
 import c01_gen as G
 import c01_decks as D
 
-THEOREMS = ['C01_flag_den', 'C01_expand_surfs_den', 'C01_optimise_den',
+THEOREMS = ['C01_flag_den', 'C01_expand_surfs_den', 'C01_expand_surfs_errors',
+            'C01_expand_surfs_facet0', 'C01_optimise_den',
             'C01_to_t4_cell_sound', 'C01_convert_cellref', 'C01_cells',
-            'C01_remove_empty_sound', 'C01_prune_sound', 'C01_partition']
+            'C01_remove_empty_sound', 'C01_prune_sound', 'C01_partition',
+            'C01_partition_points', 'C01_print_read', 'C01_partition_file',
+            'C01_partition_file_points']
 TRUSTED = [
     'hand-written model coq/C01/Model.v (modelled, tied by execution only)',
     'surfaces are abstract ids: what a T4 surface id means geometrically, and '
@@ -40,7 +43,7 @@ ASSUMPTIONS = [
     'C11, has run) and surface ids are non-zero',
 ]
 HEADER = ('From Coq Require Import List ZArith Bool.\n'
-          'From T4V Require Import C01.Model C01.Exec.\n'
+          'From T4V Require Import C01.Model C01.Printer C01.Exec.\n'
           'Import ListNotations.\nOpen Scope Z_scope.\n')
 
 
@@ -127,6 +130,8 @@ def run_pipeline_stream(res, rng, cases, label, chunk=150):
         fails = G.oracle(case, table, irng)
         if G.has_none_operand(obs[2]):
             res.count(f'{label}:none-operand')
+        if obs[7] is not None:
+            res.count(f'{label}:printed-lines-compared', len(obs[7]))
         for why in fails[:1]:
             res.violation('impl-violation',
                           f'volume table breaks the property: {why}'[:300],
@@ -175,7 +180,7 @@ def run(res, tier, seed, proofs_ok):
     D.run_witnesses(res, random.Random(seed + 1))
 
     # ---- 2/3. pipeline tie + oracle ----
-    n_valid = 500 if quick else 6000
+    n_valid = 500 if quick else 4000
     n_bad = 150 if quick else 1500
     n_part = 200 if quick else 2000
     cases = [G.gen_case(rng) for _ in range(n_valid)]
@@ -188,12 +193,12 @@ def run(res, tier, seed, proofs_ok):
         run_exhaustive(res, rng)
 
     # ---- deck level: tie on captured data + sweep at points ----
-    D.run_decks(res, rng, 60 if quick else 600)
+    D.run_decks(res, rng, 60 if quick else 400)
 
 
 def run_exhaustive(res, rng):
     '''Every tree over 2 surfaces (4 literals) with <= 3 internal nodes of
-    arity <= 2 and with <= 2 internal nodes of arity <= 3; 15 000 random trees
+    arity <= 2 and with <= 2 internal nodes of arity <= 3; 8 000 random trees
     with exactly 4 internal nodes (the full set has > 4e5 members for arity 2).'''
     from collections import OrderedDict
     trees = []
@@ -203,7 +208,7 @@ def run_exhaustive(res, rng):
         trees += [t for t in G.all_trees(n, max_arity=3)
                   if any(len(k[1]) == 3 for k in walk(t))]
     res.count('exhaustive:enumerated', len(trees))
-    trees += [G.random_tree_n(rng, 4) for _ in range(15000)]
+    trees += [G.random_tree_n(rng, 4) for _ in range(8000)]
     cases = []
     for tree in trees:
         cells = OrderedDict()
